@@ -3,4 +3,4 @@ Assembled from every element part (each contributes X_conserves / X_flow_fifo / 
 plus 'gensink' (generator law, sink books, random pipelines of real elements, composition theorem)."""
 from vlib.composite import Composite
 
-PROP = Composite("C08", ["gensink", "wire", "port", "bucket", "mq", "drr", "wfq", "route"], n_quick=500, n_thorough=12000)
+PROP = Composite("C08", ["gensink", "wire", "port", "bucket", "mq", "drr", "wfq", "route"], extra_props_files=["Props/C08_%s_Examples.v" % x for x in ("Wire", "Port", "Bucket", "DRR", "MQ", "WFQ", "GenSink", "Pipe")], n_quick=500, n_thorough=12000)
